@@ -248,7 +248,7 @@ class Characteristic:
 
     def valid_value_or_raise(self, value: Any) -> None:
         """Raise ValueError if PROP_VALID_VALUES is set and the value is not present."""
-        if self._always_null:
+        if self._always_null and value is None:
             return
         valid_values = self._properties.get(PROP_VALID_VALUES)
         if not valid_values:
